@@ -314,3 +314,33 @@ package linker
 // the moment it is recorded, neither a global name of the bundle nor a name already given to another local: on every
 // path into the recording both tables were consulted for THAT name and said no.
 //@ guarded local-css-name-is-unused C12: func=(*linkerContext).mangleLocalCSS ; in=linker ; site=mapupdate *angledProps* ; scenario=css_local_name_collides_with_global ; require-any=false:globalNames[*] && false:usedLocalNames[*]
+
+// C10: an `import()` of a bundled file is printed in one of two ways. If isExternalDynamicImport says so it becomes an
+// import of the target's own chunk; otherwise it becomes a call of the target's wrapper (`require_x()` / `init_x()`),
+// which exists only if the scan gave the target a wrapper. The scan must therefore wrap the target of EVERY dynamic
+// import that is not external in that sense: nothing but that very predicate (and the export kind, which only selects
+// WHICH wrapper) may stand in front of the wrapper decision.
+//@ guarded dynamic-import-target-is-wrapped-unless-external C10: func=(*linkerContext).scanImportsAndExports ; in=linker ; site=store JSReprMeta.Wrap ; only-under=true:*.Kind==3 ; scenario=self_dynamic_import_splitting ; require=false:call isExternalDynamicImport(*)
+
+// C02 (evaluation order): a module's `import` / `export ... from` of a wrapped ESM module becomes a call of that
+// module's init wrapper; if the module (or a dependency) uses top-level await the wrapper returns a promise and the
+// call must be awaited, or the importer's body runs before its dependency has finished. Wherever a call of another
+// file's WrapperRef is built, what is built must depend on that file's IsAsyncOrHasAsyncDependency.
+//@ flow init-call-considers-async.convert C02: func=(*linkerContext).convertStmtsForChunk ; in=linker ; site=store EIdentifier.Ref ; when=*.AST.WrapperRef ; scenario=export_star_tla ; then-reads=JSReprMeta.IsAsyncOrHasAsyncDependency
+//@ flow init-call-considers-async.remove C02: func=(*linkerContext).shouldRemoveImportExportStmt ; in=linker ; site=store EIdentifier.Ref ; when=*.AST.WrapperRef ; scenario=export_star_tla ; then-reads=JSReprMeta.IsAsyncOrHasAsyncDependency
+
+// C14 ("including esbuild's own injected helper code and module wrappers"): an object spread that the LINKER generates
+// (the CommonJS export-name annotation `0 && (module.exports = {a, ...require("./d.js")})` never runs, but it must
+// still parse) sits under a test that the target has object spread.
+//@ gate linker-generated-object-spread C14: feature=compat.ObjectRestSpread ; site=store Property.Kind const js_ast.PropertySpread ; in=linker ; scenario=cjs_annotation_spread
+
+// C12 ("bundling @import graphs yields a sheet equivalent to inlining every import where it appears ... layers keep
+// first-declaration order"): an earlier import of the same file is redundant only if the later import puts the same
+// rules in the same layer under conditions that are at least as wide. Conditions of the earlier import beyond the
+// length of the later list still apply to it; if one of them names a layer, the earlier copy lives in a layer the later
+// copy does not, and dropping it changes the cascade (layered !important beats unlayered !important).
+//@ func isConditionalImportRedundant
+//@   arith int
+//@   prop C12
+//@   opt scenario layered_import_dropped
+//@   ensures trailing-layer-is-never-redundant: result ==> (forall i int :: len(later) <= i && i < len(earlier) ==> len(earlier[i].Layers) == 0)
